@@ -47,3 +47,24 @@ Theorem C10_model_reproduces_reference_streams :
   gold_ok gold4_cfg gold4_data gold4_stream = true /\ gold_ok gold5_cfg gold5_data gold5_stream = true.
 Proof. vm_compute. repeat split; reflexivity. Qed.
 Print Assumptions C10_model_reproduces_reference_streams.
+
+(* ---------- the same for the NONE transform / RANGE entropy pipeline: six streams of the reference encoder ---------- *)
+From KV Require Import Model.ContainerG Golden.StreamsRange.
+Definition gold_ok_r (cfg : N * N * N) (data stream : list N) : bool :=
+  let '(ck, bs, hint) := cfg in
+  let c := mkH ck 4 0 bs hint in
+  let blocks := chunks bs data in
+  if list_eq_dec N.eq_dec (write_stream_e (block_hash ck) c blocks) stream then
+    match parse_stream_e (block_hash ck) (fun _ => true) (fun _ => true) (S (S (List.length blocks))) 1024 [] stream with
+    | Some (c', frames) => if list_eq_dec N.eq_dec (List.concat (List.map (fun f => match f with PData b => b | _ => [] end) frames)) data
+                           then (h_bsize c' =? bs) && (h_ck c' =? ck) && (h_etype c' =? 4) else false
+    | None => false
+    end
+  else false.
+
+Theorem C10_model_reproduces_reference_range_streams :
+  gold_ok_r goldr0_cfg goldr0_data goldr0_stream = true /\ gold_ok_r goldr1_cfg goldr1_data goldr1_stream = true /\
+  gold_ok_r goldr2_cfg goldr2_data goldr2_stream = true /\ gold_ok_r goldr3_cfg goldr3_data goldr3_stream = true /\
+  gold_ok_r goldr4_cfg goldr4_data goldr4_stream = true /\ gold_ok_r goldr5_cfg goldr5_data goldr5_stream = true.
+Proof. vm_compute. repeat split; reflexivity. Qed.
+Print Assumptions C10_model_reproduces_reference_range_streams.
